@@ -547,6 +547,33 @@ impl Driver {
                     self.scan("range", format!("{} {}", lo.text(), hi.text()), seqno, pulls, it);
                 }
             }
+            Op::ORange(lo, hi, pulls, s, items) => {
+                if let Some(seqno) = self.snap_seqno(s) {
+                    // the overlay's writes are newer than everything the snapshot sees: seqnos
+                    // from the snapshot upwards (read-your-own-writes), overlay fully visible
+                    let base = seqno.min(1 << 60);
+                    let mt = lsm_tree::Memtable::new(u64::MAX - 7);
+                    let mut txt = String::new();
+                    for (j, (k, v)) in items.iter().enumerate() {
+                        let sq = base + j as u64;
+                        let iv = match v {
+                            Some(v) => lsm_tree::InternalValue::from_components(k.clone(), v.clone(), sq, ValueType::Value),
+                            None => lsm_tree::InternalValue::from_components(k.clone(), Vec::<u8>::new(), sq, ValueType::Tombstone),
+                        };
+                        mt.insert(iv);
+                        let _ = write!(txt, "{}{}:{}:{}", if j == 0 { "" } else { "," }, hex(k), sq, v.as_ref().map_or("!".to_string(), |v| hex(v)));
+                    }
+                    if txt.is_empty() {
+                        txt.push('-');
+                    }
+                    let it = self.tree().range::<Vec<u8>, _>(
+                        (lo.to_std(), hi.to_std()),
+                        seqno,
+                        Some((Arc::new(mt), SeqNo::MAX)),
+                    );
+                    self.scan("orange", format!("{} {} {txt}", lo.text(), hi.text()), seqno, pulls, it);
+                }
+            }
             Op::Prefix(p, pulls, s) => {
                 if let Some(seqno) = self.snap_seqno(s) {
                     let it = self.tree().prefix(p, seqno, None);
